@@ -1,21 +1,23 @@
-import Proofs.C06AsIs
+import Proofs.C06Dtype
 /-!
 # C06 — ragged-array writes keep all views coherent over any operation history
 
 Model: `Ens.RaggedW` (`lean/Model/RaggedW.lean`), `step cfg : State α → Op α → Except Err …` mirrors
 `RaggedArray.__setitem__ / append / map_operator / __invert__ / __init__` of `enspara/ra/ra.py` with
-`_data`, `_array`, `lengths` as separate fields; `cfg` says which of the proposed repairs the tree has
-(`Cfg.asIs` = the unchanged tree, `Cfg.fixed` = all four diffs of `/tmp/fix-proposals`).
-Specification: `specStep` on a plain list of rows.
+`_data`, `_array`, `lengths` as separate fields.  `cfg` names a variant of the code:
+`Cfg.current` = `/repo` HEAD (the four `fix:` commits of the read-side and write-side repairs are in),
+`Cfg.beforeC06` / `Cfg.asIs` = the variants before them.  Specification: `specStep` on a plain list
+of rows.  Everything is for an arbitrary element type `α`, arbitrary states, operations, histories.
 
-What is proved, for every element type `α`, every state, every operation, every history:
-
-* `InScope cfg s op` is the region in which the variant `cfg` of the code is claimed to behave like
-  the list of rows.  For the fully repaired variant it contains *every* operation whose own guards
-  hold (`inScope_fixed`); for the unchanged tree it excludes exactly the defect regions listed in
-  `known_findings.d/C06.json`, each witnessed below by a `…_counterexample`.
-* The full statements are kept as `def C06_…_full : Prop`; they are FALSE for `Cfg.asIs`
-  (counterexamples by `decide`) and TRUE for `Cfg.fixed` (`…_fixed` theorems).
+* Full-strength theorems for `/repo` HEAD: `step_refines`, `step_preserves_coherent`,
+  `history_refines`, `history_observers`, `dtype_stable`, `operators_pure`, `iop_elementwise`.
+  Their only hypotheses are `Inv` (coherent, at least one row) of the START state and `Valid`, the
+  guards of the operations themselves (operand / mask of the array's row structure; `append` on an
+  array that has at least one cell).
+* The same statements for an arbitrary variant `cfg` carry the region `InScope cfg`
+  (`…_variant` theorems); for the OLD variants the full statements are false — the
+  `…_before_fix_counterexample`s (explicitly about `Cfg.beforeC06` / `Cfg.asIs`) document what each
+  repair changed.
 -/
 namespace C06
 open Ens Ens.RaggedW
@@ -37,15 +39,15 @@ theorem partition_roundtrip (rows : Rows α) :
 
 /-! ## one step -/
 
-/-- **step_refines** (partial: `InScope`).  In scope, a write does to the rows exactly what the
+/-- **step_refines** for any variant of the code, in its region `InScope`.  In scope, a write does to the rows exactly what the
 list-of-rows model does, raises exactly when the model raises (same error kind), and a pure
 operator returns the model's result. -/
-theorem step_refines_partial (cfg : Cfg) (s : State α) (op : Op α) (h : Inv s) (hs : InScope cfg s op) :
+theorem step_refines_variant (cfg : Cfg) (s : State α) (op : Op α) (h : Inv s) (hs : InScope cfg s op) :
     absR (step cfg s op) = specStep s.array op :=
   (stepOK_of_inScope cfg h op hs (fun _ _ _ => specTargets_valid)).1
 
-/-- **step_preserves_coherent** (partial: `InScope`, and not the stale row-view write). -/
-theorem step_preserves_coherent_partial (cfg : Cfg) (s s' : State α) (o : Option (State α)) (op : Op α)
+/-- **step_preserves_coherent** for any variant (in scope, and not the stale row-view write). -/
+theorem step_preserves_coherent_variant (cfg : Cfg) (s s' : State α) (o : Option (State α)) (op : Op α)
     (h : Inv s) (hs : InScope cfg s op) (hst : ¬ StaleWrite cfg s op)
     (hstep : step cfg s op = .ok (s', o)) :
     Coherent s' ∧ s'.array ≠ [] ∧ ∀ b, o = some b → Coherent b :=
@@ -85,21 +87,21 @@ instance (s : State α) [DecidableEq α] : (op : Op α) → Decidable (Valid s o
 
 /-- For the fully repaired code every valid operation is in scope. -/
 theorem inScope_fixed (s : State α) (op : Op α) (h : Coherent s) (hv : Valid s op) :
-    InScope Cfg.fixed s op := by
+    InScope Cfg.current s op := by
   cases op with
   | setElem i j x => trivial
   | viewWrite i j x => trivial
   | setRow i v => exact Or.inl rfl
   | setRows sel vs form => exact Or.inl rfl
   | setIntSlice i sl v => trivial
-  | set2d r c v => exact ⟨idxAgree_fixed Cfg.fixed rfl h r c, Or.inl rfl⟩
+  | set2d r c v => exact ⟨idxAgree_fixed Cfg.current rfl h r c, Or.inl rfl⟩
   | setPaired r c v => exact Or.inl rfl
-  | setMask mask v => exact ⟨maskAgree_of_lengths Cfg.fixed h mask hv (Or.inl rfl), Or.inl rfl⟩
+  | setMask mask v => exact ⟨maskAgree_of_lengths Cfg.current h mask hv (Or.inl rfl), Or.inl rfl⟩
   | append vs form => exact hv
   | appendFlat v => exact ⟨rfl, hv⟩
   | iop f => exact Or.inr rfl
   | iop2 g o => exact ⟨hv, Or.inr rfl⟩
-  | iopAt r c f => exact ⟨idxAgree_fixed Cfg.fixed rfl h r c, Or.inl rfl⟩
+  | iopAt r c f => exact ⟨idxAgree_fixed Cfg.current rfl h r c, Or.inl rfl⟩
   | binop f => exact Or.inr rfl
   | binop2 g o => exact ⟨hv, Or.inr rfl⟩
   | copyCtor viaFlat np => exact Or.inr (Or.inr rfl)
@@ -155,22 +157,26 @@ def C06_step_preserves_coherent_full (cfg : Cfg) : Prop :=
   ∀ (s s' : State Int) (o : Option (State Int)) (op : Op Int), Inv s → Valid s op →
     step cfg s op = .ok (s', o) → Coherent s'
 
-/-- With all four repairs the full statement holds (for every element type). -/
-theorem step_refines_fixed (s : State α) (op : Op α) (h : Inv s) (hv : Valid s op) :
-    absR (step Cfg.fixed s op) = specStep s.array op :=
-  step_refines_partial Cfg.fixed s op h (inScope_fixed s op h.1 hv)
+/-- **step_refines**, full strength, `/repo` HEAD: every valid operation on every coherent array does to
+the rows exactly what the list-of-rows model does (same result, same error kind, same operator
+result). -/
+theorem step_refines (s : State α) (op : Op α) (h : Inv s) (hv : Valid s op) :
+    absR (step Cfg.current s op) = specStep s.array op :=
+  step_refines_variant Cfg.current s op h (inScope_fixed s op h.1 hv)
 
-theorem step_preserves_coherent_fixed (s s' : State α) (o : Option (State α)) (op : Op α)
-    (h : Inv s) (hv : Valid s op) (hstep : step Cfg.fixed s op = .ok (s', o)) :
+/-- **step_preserves_coherent**, full strength, `/repo` HEAD (also for the result of a pure operator) -/
+theorem step_preserves_coherent (s s' : State α) (o : Option (State α)) (op : Op α)
+    (h : Inv s) (hv : Valid s op) (hstep : step Cfg.current s op = .ok (s', o)) :
     Coherent s' ∧ s'.array ≠ [] ∧ ∀ b, o = some b → Coherent b :=
-  step_preserves_coherent_partial Cfg.fixed s s' o op h (inScope_fixed s op h.1 hv)
-    (not_stale_of_fix Cfg.fixed rfl s op) hstep
+  step_preserves_coherent_variant Cfg.current s s' o op h (inScope_fixed s op h.1 hv)
+    (not_stale_of_fix Cfg.current rfl s op) hstep
 
-example : C06_step_refines_full Cfg.fixed := fun s op h hv => step_refines_fixed s op h hv
+example : C06_step_refines_full Cfg.current := fun s op h hv => step_refines s op h hv
 
-/-! ### the unchanged tree: one witness per known finding (`known_findings.d/C06.json`) -/
+/-! ### what the three write-side repairs changed: the variant `Cfg.beforeC06` (read-side repair only),
+one witness per finding that was open then (all closed by the `fix:` commits; for the record) -/
 
-/-- a ragged array `[[1], [2, 3]]` and an equal-length array `[[1, 2], [3, 4]]` as the unchanged
+/-- a ragged array `[[1], [2, 3]]` and an equal-length array `[[1, 2], [3, 4]]` as the
 constructor builds them (2-d object block for equal lengths) -/
 def ragged0 : State Int := ⟨[1, 2, 3], [1, 2], [[1], [2, 3]], false, false⟩
 def block0 : State Int := ⟨[1, 2, 3, 4], [2, 2], [[1, 2], [3, 4]], false, false⟩
@@ -178,88 +184,139 @@ def all_ : PySlice := ⟨none, none, none⟩
 
 example : Inv ragged0 ∧ Inv block0 := by decide
 
-/-- `a[mask] = 7` with an all-false mask: IndexError, the model does nothing -/
-theorem setmask_all_false_counterexample :
-    absR (step Cfg.asIs ragged0 (.setMask [[false], [false, false]] (.scalar 7)))
-      ≠ specStep ragged0.array (.setMask [[false], [false, false]] (.scalar 7)) := by decide
-
-/-- `a[:, 1:] = 7` when a selected row has no column 1: TypeError -/
-theorem set2d_empty_selection_counterexample :
-    absR (step Cfg.asIs ragged0 (.set2d (.slice all_) (.slice ⟨some 1, none, none⟩) (.scalar 7)))
-      ≠ specStep ragged0.array (.set2d (.slice all_) (.slice ⟨some 1, none, none⟩) (.scalar 7)) := by decide
-
-/-- `a[:, -1:] = 7` : writes every cell instead of the last cell of each row -/
-theorem set2d_col_slice_negative_start_counterexample :
-    absR (step Cfg.asIs ragged0 (.set2d (.slice all_) (.slice ⟨some (-1), none, none⟩) (.scalar 7)))
-      = .ok ([[7], [7, 7]], none) ∧
-    specStep ragged0.array (.set2d (.slice all_) (.slice ⟨some (-1), none, none⟩) (.scalar 7))
-      = .ok ([[7], [2, 7]], none) := by decide
-
-/-- `a[:, ::-1] = 7` : TypeError (every selection comes up empty) -/
-theorem set2d_col_slice_negative_step_counterexample :
-    absR (step Cfg.asIs ragged0 (.set2d (.slice all_) (.slice ⟨none, none, some (-1)⟩) (.scalar 7)))
-      ≠ specStep ragged0.array (.set2d (.slice all_) (.slice ⟨none, none, some (-1)⟩) (.scalar 7)) := by decide
-
-/-- `a[::-1, 0] = 7` : ValueError (no row selected) -/
-theorem set2d_row_slice_negative_step_counterexample :
-    absR (step Cfg.asIs ragged0 (.set2d (.slice ⟨none, none, some (-1)⟩) (.int 0) (.scalar 7)))
-      ≠ specStep ragged0.array (.set2d (.slice ⟨none, none, some (-1)⟩) (.int 0) (.scalar 7)) := by decide
-
-/-- `a[:5, 0] = 7` on two rows: IndexError (the stop is not clipped) -/
-theorem set2d_row_slice_out_of_range_counterexample :
-    absR (step Cfg.asIs ragged0 (.set2d (.slice ⟨none, some 5, none⟩) (.int 0) (.scalar 7)))
-      ≠ specStep ragged0.array (.set2d (.slice ⟨none, some 5, none⟩) (.int 0) (.scalar 7)) := by decide
-
 /-- `a[0] = [7, 8, 9]` on an equal-length array: ValueError; `a[0] = [7]` fills the row with 7 -/
-theorem setrow_rectangular_resize_counterexample :
-    absR (step Cfg.asIs block0 (.setRow 0 [7, 8, 9])) = .error .valueError ∧
+theorem setrow_rectangular_resize_before_fix_counterexample :
+    absR (step Cfg.beforeC06 block0 (.setRow 0 [7, 8, 9])) = .error .valueError ∧
     specStep block0.array (.setRow 0 [7, 8, 9]) = .ok ([[7, 8, 9], [3, 4]], none) ∧
-    absR (step Cfg.asIs block0 (.setRow 0 [7])) = .ok ([[7, 7], [3, 4]], none) ∧
+    absR (step Cfg.beforeC06 block0 (.setRow 0 [7])) = .ok ([[7, 7], [3, 4]], none) ∧
     specStep block0.array (.setRow 0 [7]) = .ok ([[7], [3, 4]], none) :=
   ⟨by decide, by decide, by decide, by decide⟩
 
 /-- `a[0:2] = RaggedArray([[5, 6, 1], [7, 8]])` (two rows, unequal) on a 2 x 2 array: the two row
 OBJECTS are broadcast into the cells -/
-theorem setrows_rectangular_counterexample :
-    absR (step Cfg.asIs block0 (.setRows (.slice all_) [[5, 6, 1], [7, 8]] .ra)) = .error .garbled ∧
+theorem setrows_rectangular_before_fix_counterexample :
+    absR (step Cfg.beforeC06 block0 (.setRows (.slice all_) [[5, 6, 1], [7, 8]] .ra)) = .error .garbled ∧
     specStep block0.array (.setRows (.slice all_) [[5, 6, 1], [7, 8]] .ra)
       = .ok ([[5, 6, 1], [7, 8]], none) := ⟨by decide, by decide⟩
 
 /-- `a.append([5, 6])` : ValueError -/
-theorem append_flat_row_counterexample :
-    absR (step Cfg.asIs ragged0 (.appendFlat [5, 6])) ≠ specStep ragged0.array (.appendFlat [5, 6]) := by decide
+theorem append_flat_row_before_fix_counterexample :
+    absR (step Cfg.beforeC06 ragged0 (.appendFlat [5, 6])) ≠ specStep ragged0.array (.appendFlat [5, 6]) := by
+  decide
+
+/-- `a[5:, 0] += 1` (no row selected): IndexError from `value[0]`, the model does nothing -/
+theorem iopat_no_row_selected_before_fix_counterexample :
+    absR (step Cfg.beforeC06 ragged0 (.iopAt (.slice ⟨some 5, none, none⟩) (.int 0) (· + 1))) = .error .indexError ∧
+    specStep ragged0.array (.iopAt (.slice ⟨some 5, none, none⟩) (.int 0) (· + 1)) = .ok ([[1], [2, 3]], none) :=
+  ⟨by decide, by decide⟩
 
 /-- `row = a[0]; row[0] = 9` on an equal-length array: `_array` changes, `_data` does not -/
-theorem viewwrite_rectangular_counterexample :
-    ∃ s', step Cfg.asIs block0 (.viewWrite 0 0 9) = .ok (s', none) ∧ ¬ Coherent s' ∧
+theorem viewwrite_rectangular_before_fix_counterexample :
+    ∃ s', step Cfg.beforeC06 block0 (.viewWrite 0 0 9) = .ok (s', none) ∧ ¬ Coherent s' ∧
       obsRow s' 0 = .ok [9, 2] ∧ obsElem s' 0 0 = .ok 1 :=
   ⟨⟨[1, 2, 3, 4], [2, 2], [[9, 2], [3, 4]], false, false⟩, by decide, by decide, by decide, by decide⟩
 
 /-- a row write on an equal-length array turns `_data` into an object array (public `.dtype`) -/
-theorem rowwrite_object_dtype_counterexample :
-    ∃ s', step Cfg.asIs block0 (.setRow 0 [7, 8]) = .ok (s', none) ∧ s'.objDtype = true :=
+theorem rowwrite_object_dtype_before_fix_counterexample :
+    ∃ s', step Cfg.beforeC06 block0 (.setRow 0 [7, 8]) = .ok (s', none) ∧ s'.objDtype = true :=
   ⟨⟨[7, 8, 3, 4], [2, 2], [[7, 8], [3, 4]], false, true⟩, by decide, rfl⟩
 
-/-- **step_refines is false on the unchanged tree** -/
-theorem step_refines_counterexample : ¬ C06_step_refines_full Cfg.asIs := by
+/-- the full statement about the public `.dtype` observer: it never degrades to `object` -/
+def C06_dtype_stable_full (cfg : Cfg) : Prop :=
+  ∀ (s s' : State Int) (o : Option (State Int)) (op : Op Int), s.objDtype = false →
+    step cfg s op = .ok (s', o) → s'.objDtype = false
+
+/-- **dtype_stable** for any variant that has the row-view repair (every operation, every state) -/
+theorem dtype_stable_variant (cfg : Cfg) (hfix : cfg.rowViewsFix = true) (s s' : State α)
+    (o : Option (State α)) (op : Op α) (h0 : s.objDtype = false)
+    (hstep : step cfg s op = .ok (s', o)) : s'.objDtype = false :=
+  dtype_stable cfg hfix s s' o op h0 hstep
+
+/-- **dtype_stable**, `/repo` HEAD: no operation ever turns `_data` into an object array -/
+theorem dtype_stable_current (s s' : State α) (o : Option (State α)) (op : Op α) (h0 : s.objDtype = false)
+    (hstep : step Cfg.current s op = .ok (s', o)) : s'.objDtype = false :=
+  dtype_stable Cfg.current rfl s s' o op h0 hstep
+
+example : C06_dtype_stable_full Cfg.current := fun s s' o op h0 hs => dtype_stable_current s s' o op h0 hs
+
+theorem dtype_stable_before_fix_counterexample : ¬ C06_dtype_stable_full Cfg.beforeC06 := by
+  intro h
+  have := h block0 ⟨[7, 8, 3, 4], [2, 2], [[7, 8], [3, 4]], false, true⟩ none (.setRow 0 [7, 8]) rfl (by decide)
+  cases this
+
+/-- the full statement of step_refines was false before the write-side repairs -/
+theorem step_refines_before_fix_counterexample : ¬ C06_step_refines_full Cfg.beforeC06 := by
   intro h
   have := h ragged0 (.appendFlat [5, 6]) (by decide) (by decide)
-  exact append_flat_row_counterexample this
+  exact append_flat_row_before_fix_counterexample this
 
-/-- **step_preserves_coherent is false on the unchanged tree** -/
-theorem step_preserves_coherent_counterexample : ¬ C06_step_preserves_coherent_full Cfg.asIs := by
+/-- the full statement of step_preserves_coherent was false before the write-side repairs -/
+theorem step_preserves_coherent_before_fix_counterexample : ¬ C06_step_preserves_coherent_full Cfg.beforeC06 := by
   intro h
   have := h block0 ⟨[1, 2, 3, 4], [2, 2], [[9, 2], [3, 4]], false, false⟩ none (.viewWrite 0 0 9)
     (by decide) trivial (by decide)
   revert this
   decide
 
+/-- On `/repo` HEAD every 2-d index is handled like the list of rows (the read-side repair):
+`a[r, c] = v` is in scope for every index and every non-degenerate value. -/
+theorem set2d_inScope_current (s : State α) (r : Sel) (c : CSel) (v : Val α) (h : Coherent s)
+    (hv : v.isEmptyContainer = false) : InScope Cfg.current s (.set2d r c v) :=
+  ⟨idxAgree_fixed Cfg.current rfl h r c, Or.inr hv⟩
+
+/-- … and so is every mask assignment with a mask of the array's row structure -/
+theorem setMask_inScope_current (s : State α) (mask : List (List Bool)) (v : Val α) (h : Coherent s)
+    (hlen : mask.map List.length = s.lengths) (hv : v.isEmptyContainer = false) :
+    InScope Cfg.current s (.setMask mask v) :=
+  ⟨maskAgree_of_lengths Cfg.current h mask hlen (Or.inl rfl), Or.inr hv⟩
+
+/-! ### before the `fix:` commit of the read-side repair (`Cfg.asIs`), for the record:
+the index classes that were known findings then, each now handled like the list of rows -/
+
+/-- `a[mask] = 7` with an all-false mask: was IndexError -/
+theorem setmask_all_false_before_fix_counterexample :
+    absR (step Cfg.asIs ragged0 (.setMask [[false], [false, false]] (.scalar 7)))
+      ≠ specStep ragged0.array (.setMask [[false], [false, false]] (.scalar 7)) ∧
+    absR (step Cfg.current ragged0 (.setMask [[false], [false, false]] (.scalar 7)))
+      = specStep ragged0.array (.setMask [[false], [false, false]] (.scalar 7)) := ⟨by decide, by decide⟩
+
+/-- `a[:, 1:] = 7` when a selected row has no column 1: was TypeError -/
+theorem set2d_empty_selection_before_fix_counterexample :
+    absR (step Cfg.asIs ragged0 (.set2d (.slice all_) (.slice ⟨some 1, none, none⟩) (.scalar 7)))
+      ≠ specStep ragged0.array (.set2d (.slice all_) (.slice ⟨some 1, none, none⟩) (.scalar 7)) ∧
+    absR (step Cfg.current ragged0 (.set2d (.slice all_) (.slice ⟨some 1, none, none⟩) (.scalar 7)))
+      = .ok ([[1], [2, 7]], none) := ⟨by decide, by decide⟩
+
+/-- `a[:, -1:] = 7` : wrote every cell instead of the last cell of each row -/
+theorem set2d_col_slice_negative_start_before_fix_counterexample :
+    absR (step Cfg.asIs ragged0 (.set2d (.slice all_) (.slice ⟨some (-1), none, none⟩) (.scalar 7)))
+      = .ok ([[7], [7, 7]], none) ∧
+    absR (step Cfg.current ragged0 (.set2d (.slice all_) (.slice ⟨some (-1), none, none⟩) (.scalar 7)))
+      = .ok ([[7], [2, 7]], none) ∧
+    specStep ragged0.array (.set2d (.slice all_) (.slice ⟨some (-1), none, none⟩) (.scalar 7))
+      = .ok ([[7], [2, 7]], none) := ⟨by decide, by decide, by decide⟩
+
+/-- `a[:, ::-1] = 7` : was TypeError -/
+theorem set2d_col_slice_negative_step_before_fix_counterexample :
+    absR (step Cfg.asIs ragged0 (.set2d (.slice all_) (.slice ⟨none, none, some (-1)⟩) (.scalar 7)))
+      ≠ specStep ragged0.array (.set2d (.slice all_) (.slice ⟨none, none, some (-1)⟩) (.scalar 7)) := by decide
+
+/-- `a[::-1, 0] = 7` : was ValueError -/
+theorem set2d_row_slice_negative_step_before_fix_counterexample :
+    absR (step Cfg.asIs ragged0 (.set2d (.slice ⟨none, none, some (-1)⟩) (.int 0) (.scalar 7)))
+      ≠ specStep ragged0.array (.set2d (.slice ⟨none, none, some (-1)⟩) (.int 0) (.scalar 7)) := by decide
+
+/-- `a[:5, 0] = 7` on two rows: was IndexError -/
+theorem set2d_row_slice_out_of_range_before_fix_counterexample :
+    absR (step Cfg.asIs ragged0 (.set2d (.slice ⟨none, some 5, none⟩) (.int 0) (.scalar 7)))
+      ≠ specStep ragged0.array (.set2d (.slice ⟨none, some 5, none⟩) (.int 0) (.scalar 7)) := by decide
+
 /-! ## histories -/
 
 /-- **history_refines** (partial): after ANY finite history whose operations are in scope, the rows of
 the object are the rows of the list-of-rows model after the same history, and the two stored
 representations are coherent — hence (`observers_agree`) every observer agrees with the model. -/
-theorem history_refines_partial (cfg : Cfg) (s : State α) (ops : List (Op α)) (h : Inv s)
+theorem history_refines_variant (cfg : Cfg) (s : State α) (ops : List (Op α)) (h : Inv s)
     (hall : AllInScope cfg s ops) :
     (run cfg s ops).array = specRun s.array ops ∧ Coherent (run cfg s ops) :=
   let ⟨h1, h2⟩ := run_refines cfg ops s h hall
@@ -273,7 +330,22 @@ def AllValidC (cfg : Cfg) : State α → List (Op α) → Prop
         | .ok (s', _) => AllValidC cfg s' ops
         | .error _ => AllValidC cfg s ops)
 
-abbrev AllValid (s : State α) (ops : List (Op α)) : Prop := AllValidC Cfg.fixed s ops
+abbrev AllValid (s : State α) (ops : List (Op α)) : Prop := AllValidC Cfg.current s ops
+
+def decAllValidC [DecidableEq α] (cfg : Cfg) :
+    (ops : List (Op α)) → (s : State α) → Decidable (AllValidC cfg s ops)
+  | [], _ => isTrue trivial
+  | op :: ops, s =>
+    match hs : step cfg s op with
+    | .ok (s', o) =>
+      have := decAllValidC cfg ops s'
+      decidable_of_iff (Valid s op ∧ AllValidC cfg s' ops) (by simp only [AllValidC, hs])
+    | .error e =>
+      have := decAllValidC cfg ops s
+      decidable_of_iff (Valid s op ∧ AllValidC cfg s ops) (by simp only [AllValidC, hs])
+
+instance [DecidableEq α] (cfg : Cfg) (ops : List (Op α)) (s : State α) :
+    Decidable (AllValidC cfg s ops) := decAllValidC cfg ops s
 
 /-- the full statement of *history_refines* for a variant of the code -/
 def C06_history_refines_full (cfg : Cfg) : Prop :=
@@ -281,30 +353,31 @@ def C06_history_refines_full (cfg : Cfg) : Prop :=
     (run cfg s ops).array = specRun s.array ops ∧ Coherent (run cfg s ops)
 
 theorem allInScope_fixed (ops : List (Op α)) : ∀ (s : State α), Inv s → AllValid s ops →
-    AllInScope Cfg.fixed s ops := by
+    AllInScope Cfg.current s ops := by
   induction ops with
   | nil => intro _ _ _; trivial
   | cons op ops ih =>
     intro s h hv
     obtain ⟨hv1, hv2⟩ := hv
     have hin := inScope_fixed s op h.1 hv1
-    have hst := not_stale_of_fix Cfg.fixed rfl s op
+    have hst := not_stale_of_fix Cfg.current rfl s op
     refine ⟨hin, hst, ?_⟩
-    cases hs : step Cfg.fixed s op with
+    cases hs : step Cfg.current s op with
     | error e =>
       rw [hs] at hv2
       exact ih s h hv2
     | ok res =>
       obtain ⟨s', o⟩ := res
       rw [hs] at hv2
-      have := (stepOK_of_inScope Cfg.fixed h op hin (fun _ _ _ => specTargets_valid)).2 s' o hs
+      have := (stepOK_of_inScope Cfg.current h op hin (fun _ _ _ => specTargets_valid)).2 s' o hs
       exact ih s' (this.1 hst) hv2
 
-/-- **history_refines** at full strength for the repaired code: any finite history of valid
-operations, starting from any coherent non-empty array. -/
-theorem history_refines_fixed (s : State α) (ops : List (Op α)) (h : Inv s) (hv : AllValid s ops) :
-    (run Cfg.fixed s ops).array = specRun s.array ops ∧ Coherent (run Cfg.fixed s ops) :=
-  history_refines_partial Cfg.fixed s ops h (allInScope_fixed ops s h hv)
+/-- **history_refines**, full strength, `/repo` HEAD: after ANY finite history of valid operations,
+starting from any coherent non-empty array, the rows of the object are the rows of the list-of-rows
+model after the same history and the two stored representations are coherent. -/
+theorem history_refines (s : State α) (ops : List (Op α)) (h : Inv s) (hv : AllValid s ops) :
+    (run Cfg.current s ops).array = specRun s.array ops ∧ Coherent (run Cfg.current s ops) :=
+  history_refines_variant Cfg.current s ops h (allInScope_fixed ops s h hv)
 
 def decAllInScope [DecidableEq α] (cfg : Cfg) :
     (ops : List (Op α)) → (s : State α) → Decidable (AllInScope cfg s ops)
@@ -323,14 +396,13 @@ def decAllInScope [DecidableEq α] (cfg : Cfg) :
 instance [DecidableEq α] (cfg : Cfg) (ops : List (Op α)) (s : State α) :
     Decidable (AllInScope cfg s ops) := decAllInScope cfg ops s
 
-example : C06_history_refines_full Cfg.fixed := fun s ops h hv => history_refines_fixed s ops h hv
+example : C06_history_refines_full Cfg.current := fun s ops h hv => history_refines s ops h hv
 
-/-- **history_refines is false on the unchanged tree**: `a[:, 1:] = 7` on `[[1], [2, 3]]` raises and
-leaves the array as it was, the list of rows becomes `[[1], [2, 7]]` -/
-theorem history_refines_counterexample : ¬ C06_history_refines_full Cfg.asIs := by
+/-- history_refines was false before the write-side repairs: `a.append([5, 6])` on `[[1], [2, 3]]`
+raised and left the array as it was, the list of rows becomes `[[1], [2, 3], [5, 6]]` -/
+theorem history_refines_before_fix_counterexample : ¬ C06_history_refines_full Cfg.beforeC06 := by
   intro h
-  have := (h ragged0 [.set2d (.slice all_) (.slice ⟨some 1, none, none⟩) (.scalar 7)] (by decide)
-    ⟨trivial, by split <;> trivial⟩).1
+  have := (h ragged0 [.appendFlat [5, 6]] (by decide) ⟨by decide, by split <;> trivial⟩).1
   revert this
   decide
 
@@ -361,7 +433,7 @@ example : obsElem ragged0 1 (-1) = .ok 3 ∧ obsElem ragged0 0 1 = .error .index
 
 /-- history + observers: after any in-scope history every observer of the object equals the
 observer of the list-of-rows model after the same history -/
-theorem history_observers_partial (cfg : Cfg) (s : State α) (ops : List (Op α)) (h : Inv s)
+theorem history_observers_variant (cfg : Cfg) (s : State α) (ops : List (Op α)) (h : Inv s)
     (hall : AllInScope cfg s ops) :
     let s' := run cfg s ops
     let rows' := specRun s.array ops
@@ -369,11 +441,35 @@ theorem history_observers_partial (cfg : Cfg) (s : State α) (ops : List (Op α)
     obsIter s' = rows' ∧ obsFlat s' = rows'.flatten ∧ obsLengths s' = rows'.map List.length ∧
     obsLen s' = rows'.length ∧
     (∀ (β : Type) (f : β → α → β) (init : β), obsReduce s' f init = rows'.flatten.foldl f init) := by
-  obtain ⟨h1, h2⟩ := history_refines_partial cfg s ops h hall
+  obtain ⟨h1, h2⟩ := history_refines_variant cfg s ops h hall
   have ho := observers_agree (run cfg s ops) h2
   simp only
   rw [← h1]
   exact ⟨ho.1, ho.2.1, ho.2.2.1, ho.2.2.2.1, ho.2.2.2.2.1, ho.2.2.2.2.2.2.1, ho.2.2.2.2.2.2.2.2⟩
+
+/-- **history_observers**, full strength, `/repo` HEAD: after any finite history of valid operations
+every observer of the object (rows, cells incl. negative indices / IndexError, iteration, flat data,
+lengths, len, every reduction) equals the observer of the list-of-rows model after that history. -/
+theorem history_observers (s : State α) (ops : List (Op α)) (h : Inv s) (hv : AllValid s ops) :
+    let s' := run Cfg.current s ops
+    let rows' := specRun s.array ops
+    (∀ i, obsRow s' i = specRow rows' i) ∧ (∀ i j, obsElem s' i j = specElem rows' i j) ∧
+    obsIter s' = rows' ∧ obsFlat s' = rows'.flatten ∧ obsLengths s' = rows'.map List.length ∧
+    obsLen s' = rows'.length ∧
+    (∀ (β : Type) (f : β → α → β) (init : β), obsReduce s' f init = rows'.flatten.foldl f init) :=
+  history_observers_variant Cfg.current s ops h (allInScope_fixed ops s h hv)
+
+-- non-vacuity on `/repo` HEAD: a history through every writer family, incl. the formerly failing forms
+example : AllValid block0
+    [.setRow 0 [7, 8, 9], .viewWrite 1 0 5, .set2d (.slice all_) (.slice ⟨some (-1), none, none⟩) (.scalar 0),
+     .setMask [[false, false, false], [false, false]] (.scalar 1), .appendFlat [6],
+     .iopAt (.slice ⟨some 9, none, none⟩) (.int 0) (· + 1), .setRows (.slice ⟨none, some 2, none⟩) [[1], [2, 2]] .ra] := by
+  decide
+example : (run Cfg.current block0
+    [.setRow 0 [7, 8, 9], .viewWrite 1 0 5, .set2d (.slice all_) (.slice ⟨some (-1), none, none⟩) (.scalar 0),
+     .setMask [[false, false, false], [false, false]] (.scalar 1), .appendFlat [6],
+     .iopAt (.slice ⟨some 9, none, none⟩) (.int 0) (· + 1), .setRows (.slice ⟨none, some 2, none⟩) [[1], [2, 2]] .ra]).array
+    = [[1], [2, 2], [6]] := by decide
 
 /-! ## operators -/
 
@@ -395,6 +491,19 @@ theorem operators_pure2 (cfg : Cfg) (s : State α) (g : α → β → γ) (o : R
       b.array = List.zipWith (List.zipWith g) s.array o ∧ Coherent b :=
   let ⟨b, h1, h2, h3, h4, h5⟩ := zipOp_spec cfg h g o ho hd
   ⟨b, h1, h4, h5, h2, h3.1⟩
+
+/-- `/repo` HEAD: no side condition at all -/
+theorem operators_pure_current (s : State α) (f : α → β) (h : Inv s) :
+    ∃ b, mapOp Cfg.current f s = .ok b ∧ b.lengths = s.lengths ∧ b.data = s.data.map f ∧
+      b.array = s.array.map (List.map f) ∧ Coherent b :=
+  operators_pure Cfg.current s f h (Or.inr rfl)
+
+theorem operators_pure2_current (s : State α) (g : α → β → γ) (o : Rows β) (h : Inv s)
+    (ho : o.map List.length = s.lengths) :
+    ∃ b, zipOp Cfg.current g s o.flatten = .ok b ∧ b.lengths = s.lengths ∧
+      b.data = List.zipWith g s.data o.flatten ∧
+      b.array = List.zipWith (List.zipWith g) s.array o ∧ Coherent b :=
+  operators_pure2 Cfg.current s g o h ho (Or.inr rfl)
 
 /-- in `step`, a pure operator leaves the object as it is and returns the element-wise result -/
 theorem operators_pure_step (cfg : Cfg) (s s' : State α) (o : Option (State α)) (f : α → α)
@@ -443,6 +552,11 @@ theorem iop_elementwise (cfg : Cfg) (s : State α) (f : α → α) (h : Inv s)
   obtain ⟨b, h1, h2, h3, h4, _⟩ := mapOp_spec cfg h f hd
   exact ⟨b, by simp only [step, h1], h2, h4, h3.1⟩
 
+theorem iop_elementwise_current (s : State α) (f : α → α) (h : Inv s) :
+    ∃ s', step Cfg.current s (.iop f) = .ok (s', none) ∧ s'.array = s.array.map (List.map f) ∧
+      s'.lengths = s.lengths ∧ Coherent s' :=
+  iop_elementwise Cfg.current s f h (Or.inr rfl)
+
 theorem iop2_elementwise (cfg : Cfg) (s : State α) (g : α → α → α) (o : Rows α) (h : Inv s)
     (ho : o.map List.length = s.lengths) (hd : s.data ≠ [] ∨ cfg.readsFix = true) :
     ∃ s', step cfg s (.iop2 g o) = .ok (s', none) ∧
@@ -454,7 +568,7 @@ theorem iop2_elementwise (cfg : Cfg) (s : State α) (g : α → α → α) (o : 
 theorem iopAt_elementwise (cfg : Cfg) (s : State α) (r : Sel) (c : CSel) (f : α → α) (h : Inv s)
     (hs : InScope cfg s (.iopAt r c f)) :
     absR (step cfg s (.iopAt r c f)) = specStep s.array (.iopAt r c f) :=
-  step_refines_partial cfg s _ h hs
+  step_refines_variant cfg s _ h hs
 
 example : absR (step Cfg.asIs ragged0 (.iopAt (.slice all_) (.slice ⟨none, some 1, none⟩) (· + 2)))
     = .ok ([[3], [4, 3]], none) := by decide
